@@ -108,4 +108,82 @@ theorem lookupFirst_mergeEntries (old new : Entries) (k : Key) :
     lookupFirst (mergeEntries old new) k = (lookupLast new k).orElse fun _ => lookupFirst old k := by
   rw [mergeEntries_eq, lookupFirst_foldl, foldl_last]
 
+/-! ## loading the catalogue -/
+
+/-- all instances are prototypes -/
+def AllProtos (σ : Store Entries Override) : Prop := ∀ o ∈ σ.origin, o = none
+
+theorem load_closed (σ : Store Entries Override) (t : TypeD) (id : String) (cfg : Entries) (hc : Closed σ)
+    (hp : AllProtos σ) : Closed (load σ t id cfg) ∧ AllProtos (load σ t id cfg) := by
+  refine ⟨⟨?_, by simp [load, hc.2]⟩, ?_⟩
+  · intro inst hm sa hsa
+    simp only [load, List.mem_append, List.mem_singleton] at hm
+    simp only [load, List.length_append, List.length_map]
+    rcases hm with hm | hm
+    · exact Nat.lt_of_lt_of_le (hc.1 inst hm sa hsa) (Nat.le_add_right _ _)
+    · subst hm
+      have := (List.of_mem_zip hsa).2
+      simp only [List.mem_map, List.mem_range] at this
+      rcases this with ⟨i, hi, e⟩
+      show sa.2 < σ.cells.length + t.slots.length
+      have e' : i + σ.cells.length = sa.2 := e
+      have hi' : i < t.slots.length := hi
+      rw [← e', Nat.add_comm]
+      exact Nat.add_lt_add_left hi' _
+  · intro o ho
+    simp only [load, List.mem_append, List.mem_singleton] at ho
+    rcases ho with ho | ho
+    · exact hp o ho
+    · exact ho
+
+/-- the store the catalogue is loaded into -/
+def emptyStore : Store Entries Override := ⟨[], [], []⟩
+
+/-- loading any catalogue gives a closed store of prototypes: the start of every run -/
+theorem loadAll_closed (cat : List (TypeD × String × Entries)) :
+    ∀ σ : Store Entries Override, Closed σ → AllProtos σ →
+      Closed (cat.foldl (fun σ c => load σ c.1 c.2.1 c.2.2) σ) ∧
+      AllProtos (cat.foldl (fun σ c => load σ c.1 c.2.1 c.2.2) σ) := by
+  induction cat with
+  | nil => intro σ hc hp; exact ⟨hc, hp⟩
+  | cons c r ih =>
+    intro σ hc hp
+    simp only [List.foldl_cons]
+    exact ih _ (load_closed σ c.1 c.2.1 c.2.2 hc hp).1 (load_closed σ c.1 c.2.1 c.2.2 hc hp).2
+
+theorem emptyStore_closed : Closed emptyStore ∧ AllProtos emptyStore :=
+  ⟨⟨fun i hi => (by cases hi), rfl⟩, fun o ho => (by cases ho)⟩
+
+/-! ## the table is what `heimdall` looks up -/
+
+/-- every slot of every type is found under its Go type and name (no two types share a Go name, no two slots of
+a type share a name) -/
+def tableConsistent : Bool :=
+  types.all fun t => t.slots.all fun s => (typeByGo t.go).bind (·.slot s.name) == some s
+
+theorem heimdall_replace_of_consistent (h : tableConsistent = true) (t : TypeD) (ht : t ∈ types) (s : SlotD)
+    (hs : s ∈ t.slots) (old : Entries) (ov : Override) :
+    heimdall.replace t.go s.name old ov = applyRule s.rule old ov ∧ heimdall.byValue t.go s.name = !s.ref := by
+  have h1 := List.all_eq_true.mp (List.all_eq_true.mp h t ht) s hs
+  have h2 : (typeByGo t.go).bind (·.slot s.name) = some s := by simpa using h1
+  simp [heimdall, h2]
+
+/-- where the code can tell the rule's setting from "not set", the model's rule is the specification's rule -/
+theorem applyRule_spec (rule : Rule) (old : Entries) (ov : Override)
+    (h : ∀ key, rule = .over key false →
+      (entriesOf ov.entries [key]).isEmpty = true ∨ (entriesOf ov.entries [key]).any (fun e => !isZero e.2) = true) :
+    applyRule rule old ov = applyRule (specRule rule) old ov := by
+  cases rule with
+  | keep => rfl
+  | merge key => rfl
+  | fromOv key => rfl
+  | over key zeroOk =>
+    cases zeroOk with
+    | true => rfl
+    | false =>
+      simp only [specRule, applyRule, Bool.false_or, Bool.true_or, if_true]
+      rcases h key rfl with h1 | h1
+      · simp [h1]
+      · simp [h1]
+
 end Heimdall.Mech
